@@ -53,19 +53,19 @@ def main():
             run.count('heal:first-frame<=%ds' % min(int(lat) + 1, 10))
             if lat > 12:
                 run.violation('heal:slow victim=%s latency=%.1f' % (victim, lat), 'first frame after the restart took %.1f s (connection timeout is 5 s)' % lat, case)
-        # ordering per (sink incarnation, source incarnation)
+        # ordering per (sink incarnation, source incarnation): the frames one consumer incarnation is handed from one source
+        # incarnation arrive in the order that incarnation produced them (a restarted source starts counting again)
         last = {}
         for e in rec.events:
             if e['f'] == 'sink' and e['kind'] == 'in':
                 for t, (o, s, path) in e['data'].items():
                     if s is None:
                         continue
-                    key = (e['inc'],)
-                    src_inc_marker = s
+                    key = (e['inc'], path[0] if path else None)
                     prev = last.get(key)
-                    if prev is not None and s <= prev and not (victim == 'src' and s < prev):
-                        run.violation('heal:order sink-inc=%d %d after %d victim=%s' % (e['inc'], s, prev, victim),
-                                      'sink received seq %d after %d' % (s, prev), case)
+                    if prev is not None and s <= prev:
+                        run.violation('heal:order sink-inc=%d source=%s %d after %d victim=%s' % (e['inc'], key[1], s, prev, victim),
+                                      'sink received seq %d after %d of source incarnation %s' % (s, prev, key[1]), case)
                     last[key] = s
     run.samples.append(dict(family='kill-restart', **case))
     run.rule = ('component correspondence as C01 plus pipelines of real filters (src -> relay -> sink with required outputs) in pipeline mode: each filter as '
